@@ -181,3 +181,723 @@ func nonEmptyIntegerRule(c *Ctx) {
 		c.Cut(CutSpec{Rule: "R-GUARD", Fn: fn, Label: "accepts only behind a branch establishing a non-empty octet string (callers index bytes[0])", Target: x.tgt, Cut: nonEmpty})
 	}
 }
+
+// sigLengthRule: RFC 8017 8.1.2/8.2.2 step 1 — the RSA verifiers accept only a signature of exactly k octets (a
+// longer one with leading zero octets is the same integer and would verify).
+func sigLengthRule(c *Ctx) {
+	w := c.W
+	exact := func(f Fact) bool {
+		if f.Op != "eq" || f.Y == nil {
+			return false
+		}
+		a, b := stripConv(f.X), stripConv(f.Y)
+		isLen := LenOf(Param("sig"))
+		isSize := func(v ssa.Value) bool { return strings.HasSuffix(Expr(v), ".Size(pub)") }
+		return (isLen(a) && isSize(b)) || (isLen(b) && isSize(a))
+	}
+	for _, name := range []string{"z/rsa.VerifyPKCS1v15", "z/rsa.VerifyPSS"} {
+		fn := w.Fn(name)
+		if fn == nil {
+			c.Undecided("R-VSET", name, "anchor", "-", "not found")
+			continue
+		}
+		c.Sites++
+		c.Cut(CutSpec{Rule: "R-VSET", Fn: fn, Label: "accepts only a signature of exactly pub.Size() octets (RFC 8017 8.1.2/8.2.2 step 1)", Target: SuccessReturn(0, nil), Cut: exact})
+	}
+}
+
+func init() {
+	round5Extras["C03"] = sigLengthRule
+	round5Extras["C06"] = sigLengthRule
+	round5Extras["C23"] = sigLengthRule
+}
+
+// fullScanRule: the membership helpers of CertificateChain compare against every element of the chain: the element
+// index runs over 0..len-1 (a range loop, an upward index loop from 0 while i < len, or a downward one from len-1
+// while i >= 0). buildChains relies on them to refuse a certificate already in the chain, index 0 included.
+func fullScanRule(c *Ctx) {
+	w := c.W
+	n := 0
+	for _, fn := range w.FuncsOfPkg("z/x509") {
+		if !strings.HasSuffix(fn.Name(), "InChain") || fn.Signature.Recv() == nil || len(fn.Blocks) == 0 || !strings.Contains(typeStr(fn.Signature.Recv().Type()), "CertificateChain") {
+			continue
+		}
+		n++
+		found := false
+		for _, b := range fn.Blocks {
+			for _, in := range b.Instrs {
+				ia, ok := in.(*ssa.IndexAddr)
+				if !ok || !Param(fn.Params[0].Name())(stripConv(ia.X)) && stripConv(ia.X) != ssa.Value(fn.Params[0]) {
+					continue
+				}
+				found = true
+				c.Sites++
+				okScan, how := scansAll(ia)
+				c.Check(okScan, "R-SCAN", short(FuncName(fn)), "the membership scan visits every element of the chain (index 0 .. len-1)", w.InstrPos(in), how)
+			}
+		}
+		c.Check(found, "R-SCAN", short(FuncName(fn)), "element access of the chain found", w.Pos(fn.Pos()), "")
+	}
+	c.Check(n >= 3, "R-SCAN", "z/x509", "CertificateChain membership helpers found", "-", fmt.Sprint(n))
+}
+
+// scansAll: does the index of ia run over every element of ia.X?
+func scansAll(ia *ssa.IndexAddr) (bool, string) {
+	idx := ia.Index
+	if bo, ok := idx.(*ssa.BinOp); ok && bo.Op == token.ADD {
+		if k, isC := intConst(bo.Y); isC && k == 1 {
+			if phi, ok := bo.X.(*ssa.Phi); ok {
+				e := Expr(phi)
+				if e == "φ(-1|(↺+1))" || e == "φ((↺+1)|-1)" {
+					return true, "range loop"
+				}
+			}
+		}
+	}
+	phi, ok := idx.(*ssa.Phi)
+	if !ok {
+		return false, "index " + Expr(idx) + " is not a loop counter"
+	}
+	e := Expr(phi)
+	// the loop test sits in the phi's block
+	var facts []Fact
+	if ifi, ok := phi.Block().Instrs[len(phi.Block().Instrs)-1].(*ssa.If); ok {
+		facts = condFacts(ifi.Cond, true, idRes)
+	}
+	hasFact := func(op string, y func(ssa.Value) bool) bool {
+		return anyFact(facts, func(f Fact) bool { return f.Op == op && f.Y != nil && stripConv(f.X) == ssa.Value(phi) && y(stripConv(f.Y)) })
+	}
+	isLen := func(v ssa.Value) bool { return LenOf(func(x ssa.Value) bool { return sameVal(x, ia.X) })(v) }
+	isK := func(k int64) func(ssa.Value) bool {
+		return func(v ssa.Value) bool { q, ok := intConst(v); return ok && q == k }
+	}
+	lenExpr := "len(" + Expr(ia.X) + ")"
+	switch e {
+	case "φ(0|(↺+1))", "φ((↺+1)|0)":
+		if hasFact("lt", isLen) {
+			return true, "index loop 0 .. len-1"
+		}
+		return false, "upward loop " + e + " without the test i < " + lenExpr
+	case "φ((" + lenExpr + "-1)|(↺-1))", "φ((↺-1)|(" + lenExpr + "-1))":
+		if hasFact("ge", isK(0)) || hasFact("gt", isK(-1)) {
+			return true, "index loop len-1 .. 0"
+		}
+		return false, "downward loop " + e + " does not run down to index 0"
+	}
+	return false, "unrecognised loop counter " + e
+}
+
+func init() {
+	round5Extras["C07"] = fullScanRule
+}
+
+// leavesThroughHelpers: the values that can flow into v through phis, tuple extracts and the returns of in-module
+// helpers (two levels).
+func leavesThroughHelpers(v ssa.Value, depth int, out map[ssa.Value]bool) {
+	for x := range backClosure(v, nil) {
+		x0 := x
+		idx := 0
+		if ex, ok := x.(*ssa.Extract); ok {
+			x0, idx = ex.Tuple, ex.Index
+		}
+		if cl, ok := x0.(*ssa.Call); ok && depth < 2 {
+			if h := cl.Call.StaticCallee(); h != nil && InModule(h) && len(h.Blocks) > 0 {
+				for r := range returnClosure(h, idx) {
+					leavesThroughHelpers(r, depth+1, out)
+				}
+				continue
+			}
+		}
+		if _, isPhi := x.(*ssa.Phi); isPhi {
+			continue
+		}
+		out[x] = true
+	}
+}
+
+// certIDHashRule: the issuerKeyHash and issuerNameHash an OCSP request or response is created with are digests
+// (the result of hash.Hash.Sum), never an octet string taken from the certificate (a SubjectKeyId is only by
+// convention the SHA-1 of the key).
+func certIDHashRule(c *Ctx) {
+	w := c.W
+	n := 0
+	for _, nm := range []string{pkOCSP + ".CreateRequest", pkOCSP + ".CreateResponse"} {
+		fn := w.Fn(nm)
+		if fn == nil {
+			c.Undecided("R-PROV", nm, "anchor", "-", "not found")
+			continue
+		}
+		for _, b := range fn.Blocks {
+			for _, in := range b.Instrs {
+				st, ok := in.(*ssa.Store)
+				if !ok {
+					continue
+				}
+				fa, ok := st.Addr.(*ssa.FieldAddr)
+				if !ok {
+					continue
+				}
+				leaf := fieldLeaf(fieldName(fa))
+				if leaf != "IssuerKeyHash" && leaf != "IssuerNameHash" && leaf != "HashedPublicKey" && leaf != "NameHash" && leaf != "HashedName" {
+					continue
+				}
+				n++
+				c.Sites++
+				leaves := map[ssa.Value]bool{}
+				leavesThroughHelpers(st.Val, 0, leaves)
+				var bad []string
+				for l := range leaves {
+					if cc := callCommon(valueInstr(l)); cc != nil && cc.IsInvoke() && cc.Method.Name() == "Sum" {
+						continue
+					}
+					if isNilConst(l) {
+						continue
+					}
+					bad = append(bad, Expr(l))
+				}
+				sort.Strings(bad)
+				c.Check(len(bad) == 0, "R-PROV", short(nm), "CertID."+leaf+" is the result of hash.Hash.Sum on every path", w.InstrPos(in), strings.Join(bad, " ; "))
+			}
+		}
+	}
+	c.Check(n >= 4, "R-PROV", pkOCSP, "stores of the CertID hashes found in CreateRequest/CreateResponse", "-", fmt.Sprint(n))
+}
+
+func valueInstr(v ssa.Value) ssa.Instruction {
+	in, _ := v.(ssa.Instruction)
+	return in
+}
+
+func init() {
+	round5Extras["C13"] = certIDHashRule
+}
+
+// getOrCreateRule (C15): microsoft.parse files a new per-issuer list in the IssuerLists map only when the lookup of
+// that map found none (a list filed unconditionally replaces the entries collected for the issuer so far).
+func getOrCreateRule(c *Ctx) {
+	w := c.W
+	fn := w.Fn("z/x509/revocation/microsoft.parse")
+	if fn == nil {
+		c.Undecided("R-CUT", "x509/revocation/microsoft.parse", "anchor", "-", "not found")
+		return
+	}
+	n := 0
+	withHelperContexts(fn, func(h *ssa.Function, _ *ssa.Call) {
+		for _, b := range h.Blocks {
+			for _, in := range b.Instrs {
+				mu, ok := in.(*ssa.MapUpdate)
+				if !ok || !strings.HasSuffix(Expr(mu.Map), ".IssuerLists") {
+					continue
+				}
+				n++
+				c.Sites++
+				m := Expr(mu.Map)
+				c.Cut(CutSpec{Rule: "R-CUT", Fn: h, Label: "a per-issuer list is filed in IssuerLists only when the lookup found none (get-or-create)", Target: isInstr(in),
+					Cut: func(f Fact) bool {
+						if f.Op != "nil" && !(f.Op == "false" && f.Y == nil) {
+							return false
+						}
+						x := stripConv(f.X)
+						if ex, ok := x.(*ssa.Extract); ok { // v, ok := m[k]
+							x = ex.Tuple
+						}
+						lk, ok := x.(*ssa.Lookup)
+						return ok && Expr(lk.X) == m
+					}})
+			}
+		}
+	})
+	c.Check(n >= 1, "R-CUT", "x509/revocation/microsoft.parse", "store into IssuerLists found", w.Pos(fn.Pos()), fmt.Sprint(n))
+}
+
+// wrappedEOFRule (C16): the list readers of the ct packages take io.EOF from the element reader as the clean end of
+// the list. That is sound while the comparison is by identity, or while no reader wraps io.EOF into its short-read
+// error: a consumer using errors.Is(err, io.EOF) together with a producer wrapping the EOF (%w) turns a truncated last
+// element into a clean end.
+func wrappedEOFRule(c *Ctx) {
+	w := c.W
+	isEOF := func(v ssa.Value) bool {
+		v = stripConv(v)
+		if u, ok := v.(*ssa.UnOp); ok && u.Op == token.MUL {
+			if g, ok := u.X.(*ssa.Global); ok {
+				return g.Name() == "EOF" && g.Pkg.Pkg.Path() == "io"
+			}
+		}
+		return false
+	}
+	for _, pkg := range []string{"z/ct", "z/x509/ct"} {
+		var consumers, wraps []string
+		for _, fn := range w.FuncsOfPkg(pkg) {
+			for _, b := range fn.Blocks {
+				for _, in := range b.Instrs {
+					cc := callCommon(in)
+					if cc == nil || cc.StaticCallee() == nil {
+						continue
+					}
+					switch FuncName(cc.StaticCallee()) {
+					case "errors.Is":
+						if len(cc.Args) == 2 && isEOF(cc.Args[1]) {
+							consumers = append(consumers, w.InstrPos(in))
+						}
+					case "fmt.Errorf":
+						k, ok := cc.Args[0].(*ssa.Const)
+						if !ok || !strings.Contains(k.Value.ExactString(), "%w") {
+							continue
+						}
+						// may the wrapped error be io.EOF here?
+						if anyFact(domFacts(b), func(f Fact) bool { return f.Op == "eq" && f.Y != nil && (isEOF(f.Y) || isEOF(f.X)) }) {
+							wraps = append(wraps, w.InstrPos(in))
+						}
+					}
+				}
+			}
+		}
+		c.Sites++
+		c.Check(len(consumers) == 0 || len(wraps) == 0, "R-ERR", short(pkg), "no reader wraps io.EOF (%w) while a list reader ends its list on errors.Is(err, io.EOF)", "-",
+			fmt.Sprintf("errors.Is(_, io.EOF) at %v; io.EOF wrapped at %v", consumers, wraps))
+	}
+}
+
+// optionalBooleanRule (C19): ReadOptionalASN1Boolean writes only the default through out itself; a BOOLEAN that is
+// present is decoded by ReadASN1Boolean (the reader that enforces the DER octets 00/ff).
+func optionalBooleanRule(c *Ctx) {
+	w := c.W
+	fn := w.Fn(cbFn("ReadOptionalASN1Boolean"))
+	if fn == nil {
+		c.Undecided("R-SIBLING", cbFn("ReadOptionalASN1Boolean"), "anchor", "-", "not found")
+		return
+	}
+	var out, def *ssa.Parameter
+	for _, p := range fn.Params {
+		switch paramName(p) {
+		case "out":
+			out = p
+		case "defaultValue":
+			def = p
+		}
+	}
+	if out == nil || def == nil {
+		c.Undecided("R-SIBLING", cbFn("ReadOptionalASN1Boolean"), "parameters out/defaultValue", w.Pos(fn.Pos()), "not found")
+		return
+	}
+	c.Sites++
+	var bad []string
+	for _, b := range fn.Blocks {
+		for _, in := range b.Instrs {
+			if st, ok := in.(*ssa.Store); ok && st.Addr == ssa.Value(out) && st.Val != ssa.Value(def) {
+				bad = append(bad, w.InstrPos(in)+": *out = "+Expr(st.Val))
+			}
+		}
+	}
+	c.Check(len(bad) == 0, "R-SIBLING", short(cbFn("ReadOptionalASN1Boolean")), "stores only the default through out itself (a present BOOLEAN is decoded by ReadASN1Boolean)", w.Pos(fn.Pos()), strings.Join(bad, "; "))
+	deleg := false
+	for _, in := range callsIn(fn, cbFn("ReadASN1Boolean")) {
+		for _, a := range callCommon(in).Args {
+			if a == ssa.Value(out) {
+				deleg = true
+			}
+		}
+	}
+	c.Check(deleg, "R-SIBLING", short(cbFn("ReadOptionalASN1Boolean")), "hands out to ReadASN1Boolean", w.Pos(fn.Pos()), "")
+}
+
+func init() {
+	round5Extras["C15"] = getOrCreateRule
+	round5Extras["C16"] = wrappedEOFRule
+	round5Extras["C19"] = func(c *Ctx) { optionalBooleanRule(c); nonEmptyIntegerRule(c) }
+}
+
+// decryptErrorRule (C23): PrivateKey.Decrypt (the crypto.Decrypter entry point) reports success after calling one of
+// the package's decryption functions only if that function returned a nil error (none of its errors is swallowed).
+func decryptErrorRule(c *Ctx) {
+	w := c.W
+	fn := w.Fn("(*z/rsa.PrivateKey).Decrypt")
+	if fn == nil {
+		c.Undecided("R-SWALLOW", "(*rsa.PrivateKey).Decrypt", "anchor", "-", "not found")
+		return
+	}
+	n := 0
+	idx := errResultIdx(fn)
+	for _, b := range fn.Blocks {
+		for _, in := range b.Instrs {
+			cl, ok := in.(*ssa.Call)
+			if !ok || cl.Call.StaticCallee() == nil || !strings.HasPrefix(cl.Call.StaticCallee().Name(), "Decrypt") || !InModule(cl.Call.StaticCallee()) {
+				continue
+			}
+			h := cl.Call.StaticCallee()
+			hi := errResultIdx(h)
+			if hi < 0 {
+				continue
+			}
+			var res ssa.Value = cl
+			if h.Signature.Results().Len() > 1 {
+				res = nil
+				for _, r := range *cl.Referrers() {
+					if ex, ok := r.(*ssa.Extract); ok && ex.Index == hi {
+						res = ex
+					}
+				}
+			}
+			if res == nil {
+				c.Fail("R-SWALLOW", "(*rsa.PrivateKey).Decrypt", "error of "+h.Name()+" is read", w.InstrPos(in), "the error result is discarded")
+				continue
+			}
+			n++
+			c.Sites++
+			want := res
+			c.Cut(CutSpec{Rule: "R-SWALLOW", Fn: fn, Label: "succeeds after " + h.Name() + " only if it returned a nil error", StartAfter: in, MinTargets: -1,
+				Target: SuccessReturn(idx, func(f Fact) bool { return f.Op == "nil" && stripConv(f.X) == want }),
+				Cut:    func(f Fact) bool { return f.Op == "nil" && stripConv(f.X) == want }})
+		}
+	}
+	c.Check(n >= 2, "R-SWALLOW", "(*rsa.PrivateKey).Decrypt", "calls to the package's decryption functions found", w.Pos(fn.Pos()), fmt.Sprint(n))
+}
+
+// keyShareLookupRule (C24): the TLS 1.3 client goes on with a ServerHello only if it holds a key share for the group
+// the server selected (a ClientHello may carry several shares: a hybrid group and its classical fallback).
+func keyShareLookupRule(c *Ctx) {
+	w := c.W
+	fn := w.Fn("(*z/tls.clientHandshakeStateTLS13).processServerHello")
+	if fn == nil {
+		c.Undecided("R-PRE", "tls.clientHandshakeStateTLS13.processServerHello", "anchor", "-", "not found")
+		return
+	}
+	c.Sites++
+	held := func(f Fact) bool {
+		x := stripConv(f.X)
+		ex, ok := x.(*ssa.Extract)
+		if !ok {
+			return false
+		}
+		lk, ok := ex.Tuple.(*ssa.Lookup)
+		if !ok || !strings.HasSuffix(Expr(lk.X), ".keySharesByGroup") || !strings.HasSuffix(Expr(lk.Index), ".serverHello.serverShare.group") {
+			return false
+		}
+		return (ex.Index == 1 && f.Op == "true") || (ex.Index == 0 && f.Op == "nonnil")
+	}
+	c.Cut(CutSpec{Rule: "R-PRE", Fn: fn, Label: "accepts the ServerHello only if keySharesByGroup holds a share for the selected group", Target: SuccessReturn(0, nil), Cut: held})
+}
+
+// drainHandRule (C25): Conn.Read fetches the next record only once every post-handshake message already buffered
+// in c.hand has been handled (several may arrive in one record).
+func drainHandRule(c *Ctx) {
+	w := c.W
+	fn := w.Fn("(*z/tls.Conn).Read")
+	if fn == nil {
+		c.Undecided("R-STATE", "tls.Conn.Read", "anchor", "-", "not found")
+		return
+	}
+	n := 0
+	for _, in := range callsIn(fn, "(*z/tls.Conn).handlePostHandshakeMessage") {
+		n++
+		c.Sites++
+		c.Cut(CutSpec{Rule: "R-STATE", Fn: fn, Label: "after a post-handshake message the next record is read only once c.hand is empty", StartAfter: in, MinTargets: 1,
+			Target: func(i2 ssa.Instruction, _ resolver) bool {
+				cc := callCommon(i2)
+				return cc != nil && cc.StaticCallee() != nil && cc.StaticCallee().Name() == "readRecord"
+			},
+			Cut: func(f Fact) bool {
+				if f.Y == nil || !strings.HasSuffix(Expr(f.X), ".Len(c.hand)") {
+					return false
+				}
+				k, ok := intConst(f.Y)
+				return ok && k == 0 && (f.Op == "le" || f.Op == "eq")
+			}})
+	}
+	c.Check(n >= 1, "R-STATE", "tls.Conn.Read", "call of handlePostHandshakeMessage found", w.Pos(fn.Pos()), fmt.Sprint(n))
+}
+
+func init() {
+	prev23 := round5Extras["C23"]
+	round5Extras["C23"] = func(c *Ctx) { prev23(c); decryptErrorRule(c) }
+	round5Extras["C24"] = keyShareLookupRule
+	round5Extras["C25"] = drainHandRule
+}
+
+// resumeClientCertRule (C27): a session is resumed without client certificates in the ticket only if the Config in
+// force for this connection (c.config, i.e. what GetConfigForClient returned) does not require them.
+func resumeClientCertRule(c *Ctx) {
+	w := c.W
+	okFact := func(f Fact) bool {
+		x := stripConv(f.X)
+		// the ticket carries certificates
+		if f.Y != nil && (f.Op == "ne" || f.Op == "gt") {
+			if k, ok := intConst(f.Y); ok && k == 0 && strings.HasPrefix(Expr(x), "len(") && strings.Contains(strings.ToLower(Expr(x)), "certificate") {
+				return true
+			}
+		}
+		// the Config in force does not require them
+		if f.Y == nil && f.Op == "false" {
+			if cl := callOf(x); cl != nil && cl.Call.StaticCallee() != nil && cl.Call.StaticCallee().Name() == "requiresClientCert" && strings.HasSuffix(Expr(cl.Call.Args[0]), "c.config.ClientAuth") {
+				return true
+			}
+		}
+		if f.Y != nil && (f.Op == "lt" || f.Op == "le" || f.Op == "eq") && strings.HasSuffix(Expr(x), "c.config.ClientAuth") {
+			if k, ok := intConst(f.Y); ok && (f.Op == "lt" && k <= 2 || f.Op == "le" && k <= 1 || f.Op == "eq" && k <= 1) {
+				return true // NoClientCert / RequestClientCert
+			}
+		}
+		return false
+	}
+	if fn := w.Fn(fnCFR12); fn != nil {
+		c.Sites++
+		c.Cut(CutSpec{Rule: "R-PRE", Fn: fn, Label: "resumes a ticket without client certificates only if c.config.ClientAuth does not require them", Target: TrueReturn(0, nil), Cut: okFact})
+	} else {
+		c.Undecided("R-PRE", fnCFR12, "anchor", "-", "not found")
+	}
+	if fn := w.Fn(fnCFR13); fn != nil {
+		c.Sites++
+		c.Cut(CutSpec{Rule: "R-PRE", Fn: fn, Label: "resumes a PSK without client certificates only if c.config.ClientAuth does not require them",
+			Target: func(in ssa.Instruction, _ resolver) bool { return storeToLeaf(in, "Conn.didResume") }, Cut: okFact})
+	} else {
+		c.Undecided("R-PRE", fnCFR13, "anchor", "-", "not found")
+	}
+}
+
+func init() {
+	round5Extras["C27"] = resumeClientCertRule
+}
+
+// skxLogAfterCheckRule (C28): the client records the ServerKeyExchange in the handshake log only after
+// processServerKeyExchange accepted it (the log is built from the key agreement object, which holds the wire's
+// signature algorithm only once the message was processed to the end).
+func skxLogAfterCheckRule(c *Ctx) {
+	w := c.W
+	fn := w.Fn("(*z/tls.clientHandshakeState).doFullHandshake")
+	if fn == nil {
+		c.Undecided("R-PRE", "tls.clientHandshakeState.doFullHandshake", "anchor", "-", "not found")
+		return
+	}
+	n := 0
+	for _, b := range fn.Blocks {
+		for _, in := range b.Instrs {
+			if !storeToLeaf(in, "ServerHandshake.ServerKeyExchange") {
+				continue
+			}
+			n++
+			c.Sites++
+			c.Cut(CutSpec{Rule: "R-PRE", Fn: fn, Label: "the ServerKeyExchange is logged only after processServerKeyExchange returned nil", Target: isInstr(in),
+				Cut: func(f Fact) bool {
+					if f.Op != "nil" {
+						return false
+					}
+					cc := callCommon(valueInstr(stripConv(f.X)))
+					return cc != nil && cc.IsInvoke() && cc.Method.Name() == "processServerKeyExchange"
+				}})
+		}
+	}
+	c.Check(n >= 1, "R-PRE", "tls.clientHandshakeState.doFullHandshake", "store of handshakeLog.ServerKeyExchange found", w.Pos(fn.Pos()), fmt.Sprint(n))
+}
+
+func init() {
+	round5Extras["C28"] = skxLogAfterCheckRule
+}
+
+// fingerprintPureRule (C29): the methods of ClientFingerprintConfiguration that a handshake runs before the
+// ClientHello is marshalled (WriteToConfig, CheckImplementedExtensions, marshal) do not write into the slices the
+// fingerprint holds: no element store and no append whose destination is a reslice (x[:0], x[:n] without a capacity
+// limit) of one of the receiver's fields — the filtered copy would be built in the fingerprint's own backing array.
+func fingerprintPureRule(c *Ctx) {
+	w := c.W
+	n := 0
+	for _, fn := range w.FuncsOfPkg("z/tls") {
+		if fn.Signature.Recv() == nil || len(fn.Blocks) == 0 || !strings.Contains(typeStr(fn.Signature.Recv().Type()), "ClientFingerprintConfiguration") {
+			continue
+		}
+		n++
+		recv := fn.Params[0]
+		fromRecvField := func(v ssa.Value) (string, bool) {
+			for d := 0; d < 6; d++ {
+				switch x := v.(type) {
+				case *ssa.Slice:
+					if x.Max != nil {
+						return "", false // x[:n:n]: an append reallocates
+					}
+					v = x.X
+				case *ssa.UnOp:
+					if fa, ok := x.X.(*ssa.FieldAddr); ok && x.Op == token.MUL && fa.X == ssa.Value(recv) {
+						return fieldName(fa), true
+					}
+					return "", false
+				case *ssa.Phi:
+					for _, e := range x.Edges {
+						if s, ok := e.(*ssa.Slice); ok {
+							v = s
+						}
+					}
+					if _, still := v.(*ssa.Phi); still {
+						return "", false
+					}
+				default:
+					return "", false
+				}
+			}
+			return "", false
+		}
+		var bad []string
+		for _, b := range fn.Blocks {
+			for _, in := range b.Instrs {
+				switch x := in.(type) {
+				case *ssa.Store:
+					if ia, ok := x.Addr.(*ssa.IndexAddr); ok {
+						if f, ok := fromRecvField(ia.X); ok {
+							bad = append(bad, w.InstrPos(in)+": element store into "+f)
+						}
+					}
+				case *ssa.Call:
+					if bi, ok := x.Call.Value.(*ssa.Builtin); ok && bi.Name() == "append" && len(x.Call.Args) > 0 {
+						if _, isSlice := x.Call.Args[0].(*ssa.Slice); isSlice || isPhi(x.Call.Args[0]) {
+							if f, ok := fromRecvField(x.Call.Args[0]); ok {
+								bad = append(bad, w.InstrPos(in)+": append into a reslice of "+f)
+							}
+						}
+					}
+				}
+			}
+		}
+		c.Sites++
+		c.Check(len(bad) == 0, "R-PURE", short(FuncName(fn)), "does not write into the slices held by the fingerprint", w.Pos(fn.Pos()), strings.Join(bad, "; "))
+	}
+	c.Check(n >= 3, "R-PURE", "z/tls", "methods of ClientFingerprintConfiguration found", "-", fmt.Sprint(n))
+}
+
+func isPhi(v ssa.Value) bool { _, ok := v.(*ssa.Phi); return ok }
+
+func init() {
+	round5Extras["C29"] = fingerprintPureRule
+}
+
+// hashTableRule (C32): every hash identifier in the signature-and-hash lists the TLS 1.2 code can accept from a peer
+// (supportedSKXSignatureAlgorithms, defaultSKXSignatureAlgorithms, supportedClientCertSignatureAlgorithms) has an
+// entry in supportedHashFunc: the lookup of an accepted identifier that is missing yields crypto.Hash(0), and
+// hashing with it panics inside the handshake.
+func hashTableRule(c *Ctx) {
+	w := c.W
+	rows, _, pos := w.VarRows("z/tls", "supportedHashFunc")
+	keys := map[string]bool{}
+	for _, r := range rows {
+		if len(r) >= 1 && r[0].Const != nil {
+			keys[r[0].Const.ExactString()] = true
+		}
+	}
+	c.Check(len(keys) >= 5, "R-TABLE", "z/tls", "supportedHashFunc read (hash identifier -> crypto.Hash)", w.Pos(pos), fmt.Sprint(len(keys)))
+	for _, tab := range []string{"supportedSKXSignatureAlgorithms", "defaultSKXSignatureAlgorithms", "supportedClientCertSignatureAlgorithms"} {
+		rs, _, p2 := w.VarRows("z/tls", tab)
+		var missing []string
+		for _, r := range rs {
+			if len(r) != 2 || r[1].Const == nil {
+				missing = append(missing, "unreadable row")
+				continue
+			}
+			if !keys[r[1].Const.ExactString()] {
+				missing = append(missing, r[1].String())
+			}
+		}
+		c.Sites++
+		c.Check(len(rs) >= 2 && len(missing) == 0, "R-TABLE", "z/tls", "every hash identifier of "+tab+" has an entry in supportedHashFunc", w.Pos(p2), fmt.Sprintf("%d rows; missing: %v", len(rs), missing))
+	}
+}
+
+// subtreeIPRule (C33): GeneralSubtreeIP.UnmarshalJSON stores the address and the mask as net.ParseCIDR returned them.
+func subtreeIPRule(c *Ctx) {
+	w := c.W
+	fn := w.Fn("(*z/x509.GeneralSubtreeIP).UnmarshalJSON")
+	if fn == nil {
+		c.Undecided("R-PROV", "(*x509.GeneralSubtreeIP).UnmarshalJSON", "anchor", "-", "not found")
+		return
+	}
+	n := 0
+	for _, b := range fn.Blocks {
+		for _, in := range b.Instrs {
+			st, ok := in.(*ssa.Store)
+			if !ok {
+				continue
+			}
+			fa, ok := st.Addr.(*ssa.FieldAddr)
+			if !ok {
+				continue
+			}
+			leaf := fieldLeaf(fieldName(fa))
+			if leaf != "IP" && leaf != "Mask" || !strings.Contains(Expr(fa.X), "Data") {
+				continue
+			}
+			n++
+			c.Sites++
+			e := Expr(st.Val)
+			want := map[string]string{"IP": "#0", "Mask": "#1.Mask"}[leaf]
+			okv := strings.HasPrefix(e, "net.ParseCIDR(") && strings.HasSuffix(e, want)
+			c.Check(okv, "R-PROV", "(*x509.GeneralSubtreeIP).UnmarshalJSON", "Data."+leaf+" is what net.ParseCIDR returned", w.InstrPos(in), e)
+		}
+	}
+	c.Check(n == 2, "R-PROV", "(*x509.GeneralSubtreeIP).UnmarshalJSON", "stores of Data.IP and Data.Mask found", w.Pos(fn.Pos()), fmt.Sprint(n))
+}
+
+// stateUnderLockRule (C34): the exported methods of Conn call connectionStateLocked only with handshakeMutex held.
+func stateUnderLockRule(c *Ctx) {
+	w := c.W
+	target := w.Fn("(*z/tls.Conn).connectionStateLocked")
+	if target == nil {
+		c.Undecided("R-LOCK", "(*tls.Conn).connectionStateLocked", "anchor", "-", "not found")
+		return
+	}
+	n := 0
+	for _, cl := range w.staticCallers(target) {
+		fn := cl.Parent()
+		// callers inside the handshake run under the lock Handshake took; the public accessors of Conn take it themselves
+		if fn.Signature.Recv() == nil || !strings.HasSuffix(typeStr(fn.Signature.Recv().Type()), "tls.Conn") || !token.IsExported(fn.Name()) {
+			continue
+		}
+		n++
+		c.Sites++
+		the := cl
+		c.Cut(CutSpec{Rule: "R-LOCK", Fn: fn, Label: "connectionStateLocked is called only after handshakeMutex.Lock (exported accessor)", Target: isInstr(the), MinTargets: 1,
+			Barrier: func(in ssa.Instruction) bool {
+				cc := callCommon(in)
+				return cc != nil && cc.StaticCallee() != nil && cc.StaticCallee().Name() == "Lock" && len(cc.Args) > 0 && strings.HasSuffix(Expr(cc.Args[0]), ".handshakeMutex")
+			}})
+	}
+	c.Check(n >= 1, "R-LOCK", "(*tls.Conn).connectionStateLocked", "callers found", w.Pos(target.Pos()), fmt.Sprint(n))
+}
+
+func init() {
+	round5Extras["C32"] = hashTableRule
+	round5Extras["C33"] = subtreeIPRule
+	round5Extras["C34"] = stateUnderLockRule
+}
+
+// pskAbortRule (C31): the TLS 1.3 server aborts the handshake from checkForResumption only for a ClientHello whose
+// PSK offer is malformed as a whole (identity and binder counts differ) or after one of its own tickets decrypted
+// (then a wrong binder is an attack); an offer it cannot use (unknown key, other hash, expired) is skipped and the
+// handshake falls back to a full one.
+func pskAbortRule(c *Ctx) {
+	w := c.W
+	fn := w.Fn(fnCFR13)
+	if fn == nil {
+		c.Undecided("R-CUT", fnCFR13, "anchor", "-", "not found")
+		return
+	}
+	c.Sites++
+	c.Cut(CutSpec{Rule: "R-CUT", Fn: fn, Label: "returns an error only for differing identity/binder counts or after a ticket decrypted", Target: NonNilReturn(0, nil), MinTargets: 2,
+		Cut: func(f Fact) bool {
+			if f.Op == "ne" && f.Y != nil {
+				a, b := Expr(f.X), Expr(f.Y)
+				if strings.HasPrefix(a, "len(") && strings.HasPrefix(b, "len(") && strings.Contains(a+b, "pskIdentities") && strings.Contains(a+b, "pskBinders") {
+					return true
+				}
+			}
+			if f.Op == "nonnil" {
+				x := stripConv(f.X)
+				if ex, ok := x.(*ssa.Extract); ok {
+					x = ex.Tuple
+				}
+				if cl := callOf(x); cl != nil && cl.Call.StaticCallee() != nil && cl.Call.StaticCallee().Name() == "decryptTicket" {
+					return true
+				}
+			}
+			return false
+		}})
+}
+
+func init() {
+	round5Extras["C31"] = pskAbortRule
+}
